@@ -24,7 +24,20 @@ func (r *Rng) Intn(n int) int {
 	}
 	return int(r.U64() % uint64(n))
 }
-func (r *Rng) Bool() bool        { return r.U64()&1 == 1 }
+func (r *Rng) Bool() bool          { return r.U64()&1 == 1 }
 func (r *Rng) Chance(pct int) bool { return r.Intn(100) < pct }
-func (r *Rng) Fork() *Rng        { return NewRng(r.U64()) }
+func (r *Rng) Fork() *Rng          { return NewRng(r.U64()) }
 func Pick[X any](r *Rng, xs []X) X { return xs[r.Intn(len(xs))] }
+
+// Perm returns a permutation of 0..n-1 (Fisher-Yates).
+func (r *Rng) Perm(n int) []int {
+	p := make([]int, n)
+	for i := range p {
+		p[i] = i
+	}
+	for i := n - 1; i > 0; i-- {
+		j := r.Intn(i + 1)
+		p[i], p[j] = p[j], p[i]
+	}
+	return p
+}
